@@ -32,6 +32,10 @@ structure DState where
   tree : Tree := default
   st : State := {}
   skip : Bool := false     -- after `build auto=1` (block size chosen by the library): nothing to model
+  leafIdxS : List Nat := []      -- target/source mode: source and target particle sets
+  leafIdxT : List Nat := []
+  treeS : Tree := default
+  treeT : Tree := default
   ldefs : List BlockDef := []
   lns : List Nat := []
   lalloc : Nat := 0
@@ -197,6 +201,41 @@ def step (d : DState) (line : String) : DState × List String :=
     let idx := (List.range n).map fun i => encode d.D (d.H - 1) ((cs.drop (i * d.D)).take d.D)
     ({ d with leafIdx := idx }, [])
   | "mark" :: x => (d, ["M " ++ " ".intercalate x])
+  | "partsS" :: n :: cs =>
+    let cs := natsOf cs
+    ({ d with leafIdxS := (List.range n.toNat!).map fun i => encode d.D (d.H - 1) ((cs.drop (i * d.D)).take d.D) }, [])
+  | "partsT" :: n :: cs =>
+    let cs := natsOf cs
+    ({ d with leafIdxT := (List.range n.toNat!).map fun i => encode d.D (d.H - 1) ((cs.drop (i * d.D)).take d.D) }, [])
+  | "buildtsm" :: ts =>
+    let bs := kv ts "bs" 1; let mode := kv ts "mode" 0 == 1
+    ({ d with treeS := Tree.build d.D d.H bs mode d.leafIdxS, treeT := Tree.build d.D d.H bs mode d.leafIdxT, st := {} }, [])
+  | ["dump", "tsmstructure"] =>
+    (d, (dumpStructure d.treeS).map ("s" ++ ·) ++ (dumpStructure d.treeT).map ("t" ++ ·))
+  | ["dump", "tsmvalues"] =>
+    let cellsOf := fun (t : Tree) => (List.range t.H).flatMap fun l => (t.level l).flatMap fun g => g.map fun c => (l, c)
+    (d, ((cellsOf d.treeS).map fun (l, c) => s!"V M {l} {c} {hexOf (d.st.m l c)}") ++
+        ((cellsOf d.treeT).map fun (l, c) => s!"V L {l} {c} {hexOf (d.st.l l c)}") ++
+        ((sortNat (d.treeT.stored.map (·.2))).map fun p => s!"V R {p} {hexOf (d.st.r p)}"))
+  | "exec" :: "tsm" :: ts =>
+    let cs := executeTsm d.treeS d.treeT d.periodic (kv ts "flags" 63) (kv ts "upper" 2)
+    ({ d with st := applyCalls weight (d.H - 1) d.treeT.partsOf d.treeS.partsOf d.st cs }, cs.map printCall)
+  | "exec" :: "omptsm" :: ts =>
+    let cs := executeTsm d.treeS d.treeT d.periodic (kv ts "flags" 63) (kv ts "upper" 2) true
+    ({ d with st := applyCalls weight (d.H - 1) d.treeT.partsOf d.treeS.partsOf d.st cs }, cs.map printCall)
+  | "spec" :: "tsmelems" :: ts =>
+    (d, (specElemsTsm d.D d.H d.periodic (shapeOf d.leafIdxS) (shapeOf d.leafIdxT) (kv ts "flags" 63) (kv ts "upper" 2)).map printElem)
+  | "find" :: "tsmcell" :: which :: l :: is =>
+    let l := l.toNat!
+    let t := if which == "S" then d.treeS else d.treeT
+    (d, (natsOf is).map fun i => match findGroup (t.level l) i with
+      | some (g, k) => s!"F C{which} {l} {i} {g} {k}"
+      | none => s!"F C{which} {l} {i} none")
+  | "find" :: "tsmleaf" :: which :: is =>
+    let t := if which == "S" then d.treeS else d.treeT
+    (d, (natsOf is).map fun i => match findGroup t.leafGroups i with
+      | some (g, k) => s!"F P{which} {i} {g} {k}"
+      | none => s!"F P{which} {i} none")
   | "p2p" :: routine :: w :: ns :: nt :: vs =>
     let vals := vs.map ofHex
     let out := if w == "64" then p2pRun Float f64 (fun x => x.toBits.toNat) routine ns.toNat! nt.toNat! vals
